@@ -13,8 +13,9 @@
                                        FieldTypes[i] = Fields[i].ReturnType() taken HERE, on the
                                        checked, not yet folded fields       Model/Checker.v     check_stmt
        checkStatementFunctionCalls     WHERE, then the fields               Model/Checker.v     check_stmt_calls
-                                       ([front_s] = ParseCheck.parse_check up to this point, for
-                                       every statement ParseCheck.to_check takes)
+                                       ([front_s] = ParseCheck.parse_check up to this point:
+                                       parse_check is front_s followed by ParseCheck.plan_stage,
+                                       Proofs/PipelineSProofs.v front_s_parse_check)
        optimizeSelectExpressions       stmt.Where.Expr = eo.Optimize(); stmt.Fields[i] = eo.Optimize()
                                        IN PLACE: references, ORDER BY and GROUP BY items keep
                                        pointing to the field OBJECTS        Model/FoldStmt.v    exec_tree, in_place
@@ -56,9 +57,10 @@
        together with a call on a compound function name;
      - the first token (trailing semicolons dropped) is PUT / REMOVE / DELETE: Model/PipelineW.v;
      - a SELECT whose FieldNames and Fields differ in length (Parser.Parse never builds one).
-       (ParseCheck.to_check also keeps GROUP BY together with a select field that uses a field
-       name outside; [to_check_s] below does not: `select int(value) as n, sum(n) .. group by n`
-       is inside this twin and compared with the Go code on every run);
+       (GROUP BY together with a select field that uses a field name,
+       `select int(value) as n, sum(n) .. group by n`, is inside this twin -- and inside
+       ParseCheck.to_check, which is [to_check_s] below on a SELECT -- and compared with the Go
+       code on every run);
      - a LIMIT offset or count above PipelineW.limit_bound (unary [nat] counters);
      - Pipeline.fold_oom for the WHERE tree or a field: a constant sub-tree the folder reaches that
        the evaluator twin cannot evaluate (json, a regular expression, a float outside Base/Flt);
@@ -216,14 +218,14 @@ Variable parse_int parse_float : bytes -> option Z.   (* strconv, for compareNum
 
 (* ------------------------------------------------------------------ Optimizer.init up to the
    point where the statement is accepted: ParseCheck.parse_check without its last stage
-   (plan_check looks at the fields BEFORE they are folded; buildFinalPlan sees them folded).
+   (ParseCheck.plan_stage: the folder on the fields and buildFinalPlan's tests, which
+   [plan_of_front] below runs itself, next to what else buildSelectPlan does).
    Result: the parser's statement, the checked fields (FieldNames zipped with Fields, names
    resolved) and the checked WHERE tree. *)
-(* ParseCheck.to_check for a SELECT, without its restriction on GROUP BY statements whose select
-   fields use field names: SelectStmt.resolveFieldNames has turned those names into references
-   before parseGroupBy checks the GROUP BY fields, so that Check leaves the fields as they are
-   (the restriction of Model/ParseCheck.v dates from before resolveFieldNames existed).  The two
-   agree wherever to_check answers (Proofs/PipelineSProofs.v to_check_s_agrees). *)
+(* ParseCheck.to_check for a SELECT (Proofs/PipelineSProofs.v to_check_s_agrees: the two are
+   the same function on a SELECT).  GROUP BY statements whose select fields use field names are
+   inside: SelectStmt.resolveFieldNames has turned those names into references before
+   parseGroupBy checks the GROUP BY fields, so that Check leaves the fields as they are. *)
 Definition to_check_s (x : select_t) : option Checker.stmt :=
   if negb (Nat.eqb (List.length (StmtParser.s_names x)) (List.length (s_fields x))) then None
   else Some (Checker.SSelect (combine (StmtParser.s_names x) (s_fields x)) (s_where x) (order_items (StmtParser.s_order x))).
